@@ -26,6 +26,7 @@ def run(w):
     rom[MAIN - 0xC0000:MAIN - 0xC0000 + len(main)] = main
     rom[HANDLER - 0xC0000:HANDLER - 0xC0000 + len(handler)] = handler
     rom[0x3FFFA:0x3FFFD] = HANDLER.to_bytes(3, "little")
+    rom[0x3FFFD:0x40000] = MAIN.to_bytes(3, "little")          # reset vector: the last bytes of the ROM window are not zero
     emu.load_rom(bytes(rom))
     emu.cpu.regs.set(R.PC, MAIN)
     emu.cpu.regs.set(R.S, STACK)
@@ -67,6 +68,7 @@ def _mk(imr0, ten, mti, sti, main, handler):
     rom[MAIN - 0xC0000:MAIN - 0xC0000 + len(main)] = main
     rom[HANDLER - 0xC0000:HANDLER - 0xC0000 + len(handler)] = handler
     rom[0x3FFFA:0x3FFFD] = HANDLER.to_bytes(3, "little")
+    rom[0x3FFFD:0x40000] = MAIN.to_bytes(3, "little")          # reset vector: the last bytes of the ROM window are not zero
     emu.load_rom(bytes(rom))
     emu.cpu.regs.set(R.PC, MAIN)
     emu.cpu.regs.set(R.S, STACK)
@@ -96,6 +98,9 @@ def _obs(emu):
 def _digest(emu):
     h = hashlib.sha256()
     h.update(bytes(emu.memory.external_memory[0xB8000:0xC0000]))
+    # what the bus shows at the edges of every window (ROM, RAM, card slot, vectors), read through the public path
+    for a in (0xFFFFF, 0xFFFFE, 0xFFFFD, 0xFFFFC, 0xFFFFA, 0xC0000, 0xC0001, 0xC1000, 0xBFFFF, 0xB8000, 0x80000, 0x7FFFF, 0x4FFFF, 0x40000, 0x3FFFF, 0x00000):
+        h.update(bytes([emu.memory.read_byte(a) & 0xFF]))
     h.update(bytes(emu.memory.get_internal_memory_bytes()))
     try:
         buf = emu.lcd.get_display_buffer()
